@@ -129,3 +129,34 @@ impl FromStr for MatchStrictness {
     }
   }
 }
+
+#[cfg(feature = "verif-hooks")]
+pub mod verif_hooks {
+  //! the strictness decisions as plain values, for exhaustive enumeration
+  use super::*;
+  /// 0 MatchedBoth, 1 SkipBoth, 2 SkipGoal, 3 SkipCandidate, 4 NoMatch
+  pub fn match_terminal_outcome<D: Doc>(
+    s: &MatchStrictness,
+    is_named: bool,
+    text: &str,
+    goal_kind: u16,
+    candidate: &Node<D>,
+  ) -> u8 {
+    match s.match_terminal(is_named, text, goal_kind, candidate) {
+      MatchOneNode::MatchedBoth => 0,
+      MatchOneNode::SkipBoth => 1,
+      MatchOneNode::SkipGoal => 2,
+      MatchOneNode::SkipCandidate => 3,
+      MatchOneNode::NoMatch => 4,
+    }
+  }
+  pub fn should_skip_trailing<D: Doc>(s: &MatchStrictness, candidate: &Node<D>) -> bool {
+    s.should_skip_trailing(candidate)
+  }
+  /// `should_skip_goal` on a one-element goal list
+  pub fn should_skip_goal_one(s: &MatchStrictness, goal: &PatternNode) -> bool {
+    let goals = [goal.clone()];
+    let mut it = goals.iter().peekable();
+    s.should_skip_goal(&mut it)
+  }
+}
